@@ -1,129 +1,66 @@
 #include "slu_mt_@p@defs.h"
 #include "wf.h"
 #include "defs.h"
-/* ghosts: ghost segment g_s, ghost busy column g_v, ghost element (column g_c, row g_x) of the m-by-w arrays, segrep position g_q, tempv
- * index g_t; kernel call records; the busy phase's own log */
-int_t g_s, g_v, g_x, g_c, g_q, g_t; struct kern_rec g_k;
-int_t g_next_busy, g_busy_krep[M], g_is_busy_krep[M];      /* climb position expected next; representatives appended by the busy phase */
-int_t g_onch[M];                                           /* ghost table bound by [ghost_chain] */
-/* pre-state copies (bound by [ghost_segment], [ghost_copy]) */
-int_t g_sd_krep, g_sd_kf, g_sd_nsupr, g_rep0, g_mark0, g_plsub0, g_wend0, g_segrep0, g_spin0;
-/* inputs */
-int_t in_pnum, in_m, in_w, in_jcol, in_bcol, in_nseg, in_nseg0, in_rowblk, in_colblk, in_maxsuper, in_tvlen;
-int_t in_inv_perm_r[M], in_etree[M], in_segrep[M], in_repfnz[M*W], in_panel_lsub[M*W], in_w_lsub_end[W], in_spa_marker[M*W]; @T@ in_dense[M*W], in_tempv[TVC];
-pxgstrf_shared_t in_sh; GlobalLU_t in_Glu; Gstat_t in_Gstat; procstat_t in_procstat[NP]; volatile int_t in_spin[M];
-int_t in_xsup[M+1], in_xsup_end[M+1], in_supno[M+1], in_xlsub[M+1], in_xlsub_end[M], in_xlusup[M+1], in_lsub[LC]; @T@ in_lusup[LUC];
-@T@ nondet_@T@(void); float nondet_float(void);
-#define REP8(X) X(0) X(1) X(2) X(3) X(4) X(5) X(6) X(7)
-_Static_assert(W <= 8 && M <= 8, "REP8 / CNT cover every extent");
-
-/* tuning parameters: rowblk (4), colblk (5) -- symbolic */
-int_t sp_ienv(int_t ispec) {
-  __CPROVER_assert(ispec == 4 || ispec == 5, "sp_ienv: only rowblk and colblk are asked for");
-  return ispec == 4 ? in_rowblk : in_colblk;
-}
-/* await(&spin_locks[c]) spins until another thread clears the flag of column c.  Contract: the argument is the flag of a column of the busy
- * range [bcol, jcol), the flag is set (the caller tests it first: never waits on a finished column); on return the flag is clear. */
-int_t await(volatile int_t *status) {
-  long c = status - in_spin;
-  __CPROVER_assert(__CPROVER_POINTER_OBJECT(status) == __CPROVER_POINTER_OBJECT(in_spin) && in_bcol <= c && c < in_jcol, "await: waits for a column of the busy range [bcol, jcol)");
-  __CPROVER_assert(*status != 0, "await: only called for a column that is still busy");
-  if (g_k.awaits < 3) g_k.awaits++;            /* saturating: 0, 1, 2, "3 or more" */
-  *status = 0;
-  return 0;
-}
-
-/* first column of fsupc..krep whose pivot row holds a nonzero of panel column cc's dense[], -1 if none (definition of repfnz for a busy segment) */
-static int_t lead_of(int_t cc, int_t fsupc, int_t krep) {
-  int_t first = -1;
-#define LEADCOL(i) if (first < 0 && (i) < M && fsupc <= (i) && (i) <= krep && in_dense[cc*in_m + in_inv_perm_r[i]] != 0.0) first = (i);
-  REP8(LEADCOL)
-  return first;
-}
-
-/* p?gstrf_bmod1D / p?gstrf_bmod2D by contract.  The assertions are the PRECONDITIONS of units bmod1D / bmod2D (clause names in brackets)
- * plus the caller-side facts of this unit (which segment, which kernel); the effect is the callee's frame: dense[], flop counter. */
-static void kernel(int kind, const int_t pnum, const int_t m, const int_t w, const int_t jcol, const int_t fsupc, const int_t krep,
-                   const int_t nsupc, int_t nsupr, int_t nrow, int_t *repfnz, int_t *panel_lsub, int_t *w_lsub_end, int_t *spa_marker,
-                   @T@ *dense, @T@ *tempv, GlobalLU_t *Glu, Gstat_t *Gstat) {
-  __CPROVER_assert(pnum == in_pnum && m == in_m && w == in_w && jcol == in_jcol, "kernel: pnum, m, w, jcol passed through");
-  __CPROVER_assert(repfnz == in_repfnz && panel_lsub == in_panel_lsub && w_lsub_end == in_w_lsub_end && spa_marker == in_spa_marker && dense == in_dense && tempv == in_tempv && Glu == &in_Glu && Gstat == &in_Gstat, "kernel: the panel's work arrays (column 0, stride m), Glu and Gstat passed through");
-  if (g_k.calls < in_nseg0) {          /* phase 1: the segments found by the panel DFS */
-    __CPROVER_assert(krep == KREP(g_k.calls), "kernel: segments in topological order (reverse of segrep[]), none skipped, none twice");
-    __CPROVER_assert(0 <= krep && krep < in_m && fsupc == in_xsup[in_supno[krep]], "kernel: fsupc = first column of krep's supernode");
-    __CPROVER_assert(g_k.awaits == 0 && in_nseg == in_nseg0, "kernel: no waiting, nothing appended before the finished supernodes are applied");
-  } else {                             /* phase 2: busy supernodes on the etree path bcol -> jcol, bottom up */
-    int_t t = g_k.calls - in_nseg0;
-    __CPROVER_assert(in_bcol < in_jcol && fsupc == g_next_busy && in_bcol <= fsupc && fsupc < in_jcol, "kernel(busy): starts where the climb stands (bcol, then the parent of the previous representative)");
-    __CPROVER_assert(krep == in_xsup_end[in_supno[fsupc]] - 1 && fsupc <= krep && krep < in_jcol, "kernel(busy): krep = current last column of the busy supernode");
-    /* every column of the supernode on the etree chain from fsupc has been waited for (pointwise at the ghost column g_v) */
-    __CPROVER_assert(!(fsupc <= g_v && g_v <= krep && g_onch[g_v] == 1) || in_spin[g_v] == 0, "kernel(busy): every column of the supernode on the etree chain from fsupc is finished (spin flag clear) when the kernel is called");
-    __CPROVER_assert(0 <= t && t < M && in_nseg == in_nseg0 + t + 1 && in_segrep[in_nseg0 + t] == krep, "kernel(busy): the representative was appended to segrep[], nseg counts it");
-    /* repfnz[krep] of panel column g_c: unchanged, or the first column of fsupc..krep whose pivot row holds a nonzero of dense[] (pointwise: krep == g_x) */
-    if (krep == g_x) {
-      int_t f = lead_of(g_c, fsupc, krep);
-      __CPROVER_assert(RF(g_c, krep) == (f >= 0 ? f : g_rep0), "kernel(busy): repfnz_col[krep] = leading nonzero of the busy U-segment in dense_col (else untouched)");
-    }
-    __CPROVER_assert(g_is_busy_krep[krep] == 0, "kernel(busy): a busy supernode is applied once");
-    g_busy_krep[t] = krep; g_is_busy_krep[krep] = 1; g_next_busy = in_etree[krep];
-  }
-  __CPROVER_assert(0 <= fsupc && fsupc <= krep && nsupc == krep - fsupc + 1, "kernel [snode]: 0 <= fsupc <= krep < m, nsupc = krep - fsupc + 1");
-  __CPROVER_assert(nsupr == NSUPR_AT(fsupc) && nrow == nsupr - nsupc, "kernel [snode]: nsupr = length of the row list, nrow = nsupr - nsupc");
-  __CPROVER_assert(nsupc <= nsupr, "kernel [snode]: nsupc <= nsupr (the supernode stores a row for each of its columns)");
-  __CPROVER_assert(0 <= in_xlsub[fsupc] && in_xlsub[fsupc] <= in_Glu.nzlmax - nsupr, "kernel [geometry]: row list inside lsub");
-  __CPROVER_assert(0 <= in_xlusup[fsupc] && nsupr*nsupc <= in_Glu.nzlumax - in_xlusup[fsupc], "kernel [geometry]: nsupr x nsupc block inside lusup");
-  __CPROVER_assert(FA(ka, LC, INLIST_AT(fsupc, ka) ==> (0 <= in_lsub[ka] && in_lsub[ka] < in_m)), "kernel [rows_in_range]");
-  /* pointwise: checked at the call for the ghost segment g_s / the ghost busy supernode starting at g_v (both arbitrary) */
-  if (g_k.calls < in_nseg0 ? g_k.calls == g_s : fsupc == g_v)
-    __CPROVER_assert(FA(kb, LC, FA(kc, LC, (INLIST_AT(fsupc, kb) && kb < kc && INLIST_AT(fsupc, kc)) ==> in_lsub[kb] != in_lsub[kc])), "kernel [rows_distinct]");
-  __CPROVER_assert(FA(kd, W, kd < in_w ==> (RF(kd, krep) == EMPTY || (fsupc <= RF(kd, krep) && RF(kd, krep) <= krep))), "kernel [segments]: every repfnz_col[krep] is EMPTY or a column of the supernode");
-  __CPROVER_assert((kind == 2) == WANT2D(nsupc, nrow), "kernel choice: 2-D iff nsupc >= colblk and nrow >= rowblk");
-  if (kind == 2) __CPROVER_assert(nsupc <= in_maxsuper && 1 <= in_rowblk && in_w*(in_maxsuper + in_rowblk) <= in_tvlen, "kernel(2-D) [blocking]: nsupc <= maxsuper, tempv holds w slots of maxsuper + rowblk");
-  else __CPROVER_assert(nsupr <= in_tvlen, "kernel(1-D) [tempv_size]: tempv holds nsupr scalars");
-  __CPROVER_assert(in_tempv[g_t] == 0.0, "kernel [tempv_zero_on_entry]");
-  if (g_k.calls == g_s) { g_k.kind_s = kind; g_k.fsupc_s = fsupc; g_k.krep_s = krep; g_k.nsupc_s = nsupc; g_k.nsupr_s = nsupr; g_k.nrow_s = nrow; }
-  g_k.calls++; if (kind == 2) g_k.calls2d++; else g_k.calls1d++;
-  /* effect (frame of units bmod1D/bmod2D): dense[] (rows of the supernode's list), the flop counter; tempv is zero again */
-  __CPROVER_havoc_object(in_dense);
-  in_procstat[in_pnum].fcops = nondet_float();
-}
-void p@p@gstrf_bmod1D(const int_t pnum, const int_t m, const int_t w, const int_t jcol, const int_t fsupc, const int_t krep, const int_t nsupc,
-                    int_t nsupr, int_t nrow, int_t *repfnz, int_t *panel_lsub, int_t *w_lsub_end, int_t *spa_marker, @T@ *dense, @T@ *tempv,
-                    GlobalLU_t *Glu, Gstat_t *Gstat) {
-  kernel(1, pnum, m, w, jcol, fsupc, krep, nsupc, nsupr, nrow, repfnz, panel_lsub, w_lsub_end, spa_marker, dense, tempv, Glu, Gstat);
-}
-void p@p@gstrf_bmod2D(const int_t pnum, const int_t m, const int_t w, const int_t jcol, const int_t fsupc, const int_t krep, const int_t nsupc,
-                    int_t nsupr, int_t nrow, int_t *repfnz, int_t *panel_lsub, int_t *w_lsub_end, int_t *spa_marker, @T@ *dense, @T@ *tempv,
-                    GlobalLU_t *Glu, Gstat_t *Gstat) {
-  kernel(2, pnum, m, w, jcol, fsupc, krep, nsupc, nsupr, nrow, repfnz, panel_lsub, w_lsub_end, spa_marker, dense, tempv, Glu, Gstat);
-}
-
-/* The harness only wires the pointers and calls the real routine; every input / ghost is a nondeterministic static constrained by the
- * requires clauses of units/panel_bmod/spec. */
+#include "panel_bmod_model.h"
+/* BOUNDED unit (label B): loop 3 of p?gstrf_panel_bmod is a do-while.  CBMC's static ("legacy") contract instrumentation has no loop
+ * contracts for do-while loops and refuses an uncontracted loop inside a contracted one, and it refuses to enforce a function contract
+ * on a function in which loops remain; the dynamic-frames instrumentation takes all six loop contracts (unit panel_bmod_pc, thorough
+ * tier: > 3 min of symbolic execution).  Here: loops 1, 4, 5, 6 are closed by their loop contracts (spec), loops 2 (climb) and 3
+ * (do-while) are unwound with unwinding assertions for a busy range of at most NBUSY columns; the contract of defs.h is assumed
+ * (REQ_*) and asserted (ENS_*) around the call of the real routine. */
+#define REQ(l) __CPROVER_assume(REQ_##l)
+#define ENS(l) __CPROVER_assert(ENS_##l, "ensures " #l)
+/* pre-state copies for the frame (what is NOT written): one ghost index per array */
+int_t g_p, g_l; @T@ g_lu0; int_t g_lsub0, g_idx0[8];
 void h_panel_bmod(void) {
   int_t nb;
   in_sh.Glu = &in_Glu; in_sh.Gstat = &in_Gstat; in_sh.spin_locks = in_spin; in_Gstat.procstat = in_procstat;
   in_Glu.xsup = in_xsup; in_Glu.xsup_end = in_xsup_end; in_Glu.supno = in_supno; in_Glu.lsub = in_lsub; in_Glu.xlsub = in_xlsub;
   in_Glu.xlsub_end = in_xlsub_end; in_Glu.lusup = in_lusup; in_Glu.xlusup = in_xlusup;
+  /* ---------- requires ---------- */
+  __CPROVER_assume(in_nseg == in_nseg0);
+  REQ(args); REQ(segrep_capacity); REQ(storage);
+  __CPROVER_assume(in_jcol - in_bcol <= NBUSY && BUSYSEL);        /* the bound of this unit / the variant's case */
+  REQ(segments); REQ(row_lists); REQ(rows_in_range); REQ(ghosts); REQ(ghost_segment); REQ(rows_distinct); REQ(value_blocks); REQ(repfnz_wf);
+  REQ(blocking); REQ(tempv_zero_on_entry);
+  REQ(etree); REQ(busy_supernodes); REQ(busy_contiguous); REQ(climb_hits_first_columns); REQ(busy_pivot_rows); REQ(busy_lists);
+  REQ(busy_rows_distinct); REQ(busy_repfnz); REQ(markers); REQ(ghost_chain); REQ(ghost_copy); REQ(ghost_init);
+  __CPROVER_assume(0 <= g_p && g_p < LUC && 0 <= g_l && g_l < LC && in_lusup[g_p] == in_lusup[g_p]);
+  g_lu0 = in_lusup[g_p]; g_lsub0 = in_lsub[g_l];
+  g_idx0[0] = in_xsup[g_x]; g_idx0[1] = in_xsup_end[g_x]; g_idx0[2] = in_supno[g_x]; g_idx0[3] = in_xlsub[g_x]; g_idx0[4] = in_xlsub_end[g_x];
+  g_idx0[5] = in_xlusup[g_x]; g_idx0[6] = in_etree[g_x]; g_idx0[7] = in_inv_perm_r[g_x];
 
   p@p@gstrf_panel_bmod(in_pnum, in_m, in_w, in_jcol, in_bcol, in_inv_perm_r, in_etree, &in_nseg, in_segrep, in_repfnz, in_panel_lsub,
                      in_w_lsub_end, in_spa_marker, in_dense, in_tempv, &in_sh);
 
+  /* ---------- ensures ---------- */
+  ENS(every_segment_updated_once); ENS(kernel_of_segment); ENS(no_busy_supernode_nothing_else); ENS(climb_complete); ENS(tempv_zero_on_exit);
+  ENS(segrep_prefix_kept); ENS(segrep_appended); ENS(repfnz_kept_outside_busy_reps); ENS(markers_consistent); ENS(marker_only_set);
+  ENS(list_prefix_kept); ENS(list_new_entries_marked); ENS(spin_only_cleared);
+  __CPROVER_assert(in_lusup[g_p] == g_lu0 && in_lsub[g_l] == g_lsub0 && in_xsup[g_x] == g_idx0[0] && in_xsup_end[g_x] == g_idx0[1] && in_supno[g_x] == g_idx0[2] && in_xlsub[g_x] == g_idx0[3] && in_xlsub_end[g_x] == g_idx0[4] && in_xlusup[g_x] == g_idx0[5], "ensures frame_L: the supernodes (values, row lists, index arrays) are read only");
+  __CPROVER_assert(in_etree[g_x] == g_idx0[6] && in_inv_perm_r[g_x] == g_idx0[7], "ensures frame_etree_perm: etree, inv_perm_r are read only");
+
   nb = in_nseg - in_nseg0;                 /* representatives appended by the busy phase */
   __CPROVER_assert(0, "canary: panel_bmod returns");
+#if SEGCAN
   if (in_nseg0 == 0 && nb == 0) __CPROVER_assert(0, "canary: no segment, no busy supernode");
   if (g_k.calls1d >= 1 && g_k.calls2d >= 1) __CPROVER_assert(0, "canary: both kernels used in one panel");
   if (in_nseg0 >= 3) __CPROVER_assert(0, "canary: three segments");
   if (g_k.kind_s == 1 && g_s < in_nseg0 && g_sd_krep - g_sd_kf + 1 >= in_colblk) __CPROVER_assert(0, "canary: 1-D although enough columns (too few rows below)");
   if (g_k.kind_s == 2 && g_s < in_nseg0 && g_sd_krep - g_sd_kf + 1 == in_colblk && g_sd_nsupr - (g_sd_krep - g_sd_kf + 1) == in_rowblk) __CPROVER_assert(0, "canary: 2-D exactly at both thresholds");
   if (g_s < in_nseg0 && in_xlusup[g_sd_kf] + g_sd_nsupr*(g_sd_krep - g_sd_kf + 1) == in_Glu.nzlumax && in_Glu.nzlumax == LUC && in_xlsub_end[g_sd_kf] == LC) __CPROVER_assert(0, "canary: supernode block ends exactly at nzlumax, list at nzlmax");
+  if (in_w == W && in_m == M) __CPROVER_assert(0, "canary: full capacity m = M, w = W");
+#endif
+#if BUSYCAN
   if (nb >= 2) __CPROVER_assert(0, "canary: two busy supernodes on the path");
   if (g_k.awaits >= 2) __CPROVER_assert(0, "canary: waited twice");
   if (nb >= 1 && g_k.awaits == 0) __CPROVER_assert(0, "canary: busy range already finished, no wait");
   if (nb >= 1 && g_busy_krep[0] > in_bcol) __CPROVER_assert(0, "canary: busy supernode with several columns");
+  if (nb == 1 && g_busy_krep[0] >= in_bcol + 2 && g_onch[in_bcol + 1] == 0) __CPROVER_assert(0, "canary: busy supernode that is not an etree path (relaxed)");
   if (nb >= 1 && g_is_busy_krep[g_x] == 1 && RF(g_c, g_x) != g_rep0) __CPROVER_assert(0, "canary: leading nonzero of a busy segment found");
   if (nb >= 1 && in_w_lsub_end[g_c] > g_wend0) __CPROVER_assert(0, "canary: new fill rows appended to panel_lsub");
   if (nb >= 1 && in_nseg0 >= 1) __CPROVER_assert(0, "canary: finished and busy supernodes in one call");
   if (nb >= 1 && g_k.calls2d >= 1 && in_nseg0 == 0) __CPROVER_assert(0, "canary: 2-D kernel for a busy supernode");
-  if (in_w == W && in_m == M) __CPROVER_assert(0, "canary: full capacity m = M, w = W");
+  if (nb >= 1 && in_w == W) __CPROVER_assert(0, "canary: busy supernode, full panel width");
+#endif
 }
